@@ -47,7 +47,7 @@ reg(Prop('C01', lambda r, i, t: pc.gen_item(r, i, t, 'C01'), pc.eval_C01, 8000, 
 reg(Prop('C02', lambda r, i, t: pc.gen_item_C02(r, i, t, 'C02'), pc.eval_C02, 6000, 80000, RULE_COMPUTE, ASSUME_COMPUTE,
          ['C02_arity', 'C02_iteration_is_prefix_order', 'C02_parent_before_child', 'C02_temp_ids_unique', 'C02_final_ids']))
 reg(Prop('C03', lambda r, i, t: pc.gen_item(r, i, t, 'C03'), pc.eval_C03, 6000, 80000, RULE_COMPUTE, ASSUME_COMPUTE,
-         ['C03_all_connected', 'C03_roots_closed', 'C03_contour', 'C03_branch_own_le_sub']))
+         ['C03_all_connected', 'C03_roots_closed', 'C03_contour', 'C03_branch_own_le_sub', 'C03_trunk_eq_components']))
 reg(Prop('C04', lambda r, i, t: pc.gen_item(r, i, t, 'C04'), pc.eval_C04, 8000, 120000, RULE_COMPUTE, ASSUME_COMPUTE,
          ['C04_new_leaf', 'C04_join_one', 'C04_insignificant_iff', 'C04_branch', 'C04_one_remains', 'C04_none_remains', 'C04_unique_of_distinct', 'C04_minDelta_merge', 'C04_minNpix', 'C04_allTrue', 'C04_seeds_exact']))
 reg(Prop('C05', lambda r, i, t: pc.gen_item(r, i, t, 'C05'), pc.eval_C05, 6000, 80000, RULE_COMPUTE, ASSUME_COMPUTE,
@@ -68,7 +68,7 @@ RULE_HISTORY = ("histories = a seeded structured array (as for C01) computed, th
                 "(array, parameters, operation list)")
 reg(Prop('C07', ph.gen_item_C07, ph.eval_C07, 5000, 60000, RULE_HISTORY, ASSUME_COMPUTE,
          ['C07_every_leaf_passes', 'C07_regions_preserved', 'C07_pixels_preserved', 'C07_trunk_step', 'C07_arity_preserved',
-          'C07_ids_preserved', 'C07_idempotent', 'C07_noop', 'C07_params_monotone', 'C07_params_zero_inherits']))
+          'C07_ids_preserved', 'C07_nearest_surviving_ancestor', 'C07_own_transfer', 'C07_idempotent', 'C07_noop', 'C07_params_monotone', 'C07_params_zero_inherits']))
 reg(Prop('C08', ph.gen_item_C08, ph.eval_C08, 5000, 60000,
          "pairs (compute loosely then prune strictly) vs (compute strictly) on the same seeded array; modes: min_npix only, "
          "min_delta only, both; non-trivial = the prune removed a structure", ASSUME_COMPUTE, ['C08_counterexample_criterion', 'C08_ruleOrig_agrees_on_witness', 'C08_ruleOrig_eq_computeTime', 'C08_npix', 'C08_full', 'C08_npix_same_test', 'C08_zero_inherits']))
@@ -88,7 +88,7 @@ ASSUME_ANALYSIS = [
 reg(Prop('C10', pa.gen_item_C10, pa.eval_C10, 5000, 60000,
          "seeded pixel sets in 1-4 dimensions (random / collinear / equal-weight / single pixel; positive dyadic weights; NaNs), a random "
          "direction, a translation vector, a random call order interleaved with calls on other live statistic objects; implementation floats vs "
-         "the Lean model's exact rationals; non-trivial = at least two pixels", ASSUME_ANALYSIS, ['C10_mom0_sum', 'C10_mom1_weighted_mean', 'C10_mom2_covariance', 'C10_mom2_symm', 'C10_mom2_psd', 'C10_along_scale_invariant', 'C10_along_basis', 'C10_translate_mom0', 'C10_translate_mom1', 'C10_translate_mom2', 'C10_order_desc']))
+         "the Lean model's exact rationals; non-trivial = at least two pixels", ASSUME_ANALYSIS, ['C10_mom0_sum', 'C10_mom1_weighted_mean', 'C10_mom2_covariance', 'C10_mom2_symm', 'C10_mom2_psd', 'C10_along_scale_invariant', 'C10_along_basis', 'C10_translate_mom0', 'C10_translate_mom1', 'C10_translate_mom2', 'C10_order_desc', 'ADProps::C10_memo_transparent', 'ADProps::C10_memo_transparent_empty']))
 reg(Prop('C13', pa.gen_item_C13, pa.eval_C13, 5000, 60000,
          "seeded value arrays x five input families x equivalent unit spellings x metadata values/units x output units; every third case is an "
          "error-table case (each way of omitting / mis-typing a required item, unsupported input, non-flux output); implementation vs Lean "
@@ -128,7 +128,7 @@ reg(Prop('C09', pio.gen_item_C09, pio.eval_C09, 2500, 30000,
          "loaded in FITS / HDF5, explicit or auto-detected format, str or Path, upper-case extensions, with / without WCS, compared field by "
          "field and with the model's reload; (2) random ordered forests (multi-digit ids, negative / large / tiny heights) through the text "
          "writer format and parse_newick, compared with the model's step-by-step parser and its reference parser; (3) file names x modes x "
-         "file signatures through the handler table, incl. unrecognisable targets", ASSUME_IO, ['C09_parseDescent_print', 'C09_parseImpl_print', 'C09_newick_roundtrip', 'C09_print_injective', 'C09_id_roundtrip', 'C09_fmt3_good', 'C09_regroup_correct', 'C09_identify_write', 'C09_identify_read', 'C09_identify_unique', 'C09_identify_explicit']))
+         "file signatures through the handler table, incl. unrecognisable targets", ASSUME_IO, ['C09_parseDescent_print', 'C09_parseImpl_print', 'C09_newick_roundtrip', 'C09_print_injective', 'C09_id_roundtrip', 'C09_fmt3_good', 'C09_regroup_correct', 'C09_reload_shape', 'C09_reload_own', 'C09_reload_labelMap', 'C09_reload_same_hierarchy', 'C09_reload_idempotent', 'C09_identify_write', 'C09_identify_read', 'C09_identify_unique', 'C09_identify_explicit']))
 reg(Prop('C18', pio.gen_item_C18, pio.eval_C18, 2500, 30000,
          "seeded dendrograms (computed / pruned / loaded), default and custom sort keys (id table, negated peak, pixel count), reverse on/off, "
          "a selected structure given as object / id / list with and without subtree, contour masks captured at Axes.contour; positions and "
@@ -143,7 +143,7 @@ reg(Prop('C12', pa.gen_item_C12, pa.eval_C12, 1500, 16000,
          "seeded 2-D and 3-D dendrograms (optionally pruned -> id gaps; optionally a sub-list of structures), default or random field subsets, "
          "verbose on/off; every row compared with the statistic of that structure alone (index arrays unwrapped by the Lean model of the "
          "heuristic); periodic data re-computed under a cyclic shift: shape statistics of narrow structures unchanged, centroid moved by "
-         "the shift modulo the axis length", ASSUME_ANALYSIS, ['C12_wrap_noop_narrow', 'C12_wrap_cases', 'C12_wrap_period', 'C12_wrap_never_wider', 'C12_wrap_unwraps', 'C12_wrap_noop_one_side']))
+         "the shift modulo the axis length", ASSUME_ANALYSIS, ['C12_wrap_noop_narrow', 'C12_wrap_cases', 'C12_wrap_period', 'C12_wrap_never_wider', 'C12_wrap_unwraps', 'C12_wrap_noop_one_side', 'ADProps::C12_rows_ids', 'ADProps::C12_rows_faithful']))
 PROPS['C11'].lib = 'ADPropsM'
 PROPS['C12'].lib = 'ADPropsM'
 
